@@ -104,8 +104,12 @@ def generate(repo="/repo", slot="repo", force=False, quiet=False):
             "CARGO_TARGET_DIR": target,
             "CARGO_NET_OFFLINE": "true",
         })
-        r = subprocess.run(["cargo", "+nightly", "check", "--offline", "-p", "cwe_checker_lib", "-p", "cwe_checker"],
-                           cwd=repo, env=env, stdout=subprocess.PIPE, stderr=subprocess.STDOUT, text=True)
+        cmd = ["cargo", "+nightly", "check", "--offline", "-p", "cwe_checker_lib", "-p", "cwe_checker"]
+        r = subprocess.run(cmd, cwd=repo, env=env, stdout=subprocess.PIPE, stderr=subprocess.STDOUT, text=True)
+        if r.returncode != 0 and "error[E" not in r.stdout and "error: expected" not in r.stdout:
+            # not a compile error of the analysed tree (e.g. a transient cargo/lock problem): try once more
+            time.sleep(1)
+            r = subprocess.run(cmd, cwd=repo, env=env, stdout=subprocess.PIPE, stderr=subprocess.STDOUT, text=True)
         if r.returncode != 0:
             raise FactError("the tree at %s does not compile under `cargo +nightly check`:\n%s" % (repo, r.stdout[-6000:]))
         for c in CRATES:
